@@ -502,6 +502,10 @@ def residual_checked_against_basis(ctx, rule='projected-residual-checked-against
                     res_side = lambda t_: 'm_beta' in t_ or ('norm' in t_ and 'm_fac_f' in t_)
                     coef_side = lambda t_: ('norm' in t_ or 'abs' in t_) and ('h' in t_.replace('m_fac_f', '') or 'm_fac_H' in t_)
                     if (res_side(a_) and coef_side(b_)) or (res_side(b_) and coef_side(a_)):
+                        # in init the test must be the one that decides about the correction: its branch forms V^H f
+                        # (the zero test `norm(f) < eps |H00|`, which only clears f, has the same shape and is not one)
+                        if fn.name == 'init' and not any(looks_at_basis(y_) for y_ in fn.walk(i_['then'])):
+                            continue
                         dgks.append(i_['cond'])
                 # the shortcut is sound only while the basis is a single, exactly normalised column (init): with several columns a
                 # small loss of orthogonality in V makes ||f|| / ||h|| misjudge the cancellation and passes the error on amplified;
